@@ -493,3 +493,459 @@ VARIANTS += [
            '\tmaxAttempts := verifyOpts.MaxSignatureAttempts\n\tif maxAttempts <= 0 {\n\t\tmaxAttempts = 1\n\t}\n\tif maxAttempts < 0 {\n'),
       ]),
 ]
+
+
+# ---------------------------------------------------------------------------------------------------------------
+# second pass — the class "per-signature worker": the loop body hands each listed manifest to one function, method or
+# closure that fetches and/or verifies it (cut at different statements, state in an object or in captured locals,
+# outcome reported as (bool, error), as a sentinel error, or as Verify's own results)
+
+_OLD_TAIL = r'''	var verificationSucceeded bool
+	var verificationOutcomes []*VerificationOutcome
+	var verificationFailedErrorArray = []error{ErrorVerificationFailed{}}
+	errExceededMaxVerificationLimit := ErrorVerificationFailed{Msg: fmt.Sprintf("signature evaluation stopped. The configured limit of %d signatures to verify per artifact exceeded", verifyOpts.MaxSignatureAttempts)}
+	numOfSignatureProcessed := 0
+
+	// get signature manifests
+	logger.Debug("Fetching signature manifests")
+	err = repo.ListSignatures(ctx, artifactDescriptor, func(signatureManifests []ocispec.Descriptor) error {
+		// process signatures
+		for _, sigManifestDesc := range signatureManifests {
+			if numOfSignatureProcessed >= verifyOpts.MaxSignatureAttempts {
+				break
+			}
+			numOfSignatureProcessed++
+			logger.Infof("Processing signature with manifest mediaType: %v and digest: %v", sigManifestDesc.MediaType, sigManifestDesc.Digest)
+			// get signature envelope
+			sigBlob, sigDesc, err := repo.FetchSignatureBlob(ctx, sigManifestDesc)
+			if err != nil {
+				return ErrorSignatureRetrievalFailed{Msg: fmt.Sprintf("unable to retrieve digital signature with digest %q associated with %q from the Repository, error : %v", sigManifestDesc.Digest, artifactRef, err.Error())}
+			}
+
+			// using signature media type fetched from registry
+			opts.SignatureMediaType = sigDesc.MediaType
+
+			// verify each signature
+			outcome, err := verifier.Verify(ctx, artifactDescriptor, sigBlob, opts)
+			if err != nil {
+				logger.Warnf("Signature %v failed verification with error: %v", sigManifestDesc.Digest, err)
+				if outcome == nil {
+					logger.Error("Got nil outcome. Expecting non-nil outcome on verification failure")
+					return err
+				}
+				outcome.Error = fmt.Errorf("failed to verify signature with digest %v, %w", sigManifestDesc.Digest, outcome.Error)
+				verificationFailedErrorArray = append(verificationFailedErrorArray, outcome.Error)
+				continue
+			}
+			// at this point, the signature is verified successfully
+			verificationSucceeded = true
+
+			// on success, verificationOutcomes only contains the
+			// succeeded outcome
+			verificationOutcomes = []*VerificationOutcome{outcome}
+			logger.Debugf("Signature verification succeeded for artifact %v with signature digest %v", artifactDescriptor.Digest, sigManifestDesc.Digest)
+
+			// early break on success
+			return errDoneVerification
+		}
+		if numOfSignatureProcessed >= verifyOpts.MaxSignatureAttempts {
+			return errExceededMaxVerificationLimit
+		}
+		return nil
+	})
+	if err != nil && !errors.Is(err, errDoneVerification) {
+		if errors.Is(err, errExceededMaxVerificationLimit) {
+			return ocispec.Descriptor{}, verificationOutcomes, err
+		}
+		return ocispec.Descriptor{}, nil, err
+	}
+
+	// If there's no signature associated with the reference
+	if numOfSignatureProcessed == 0 {
+		return ocispec.Descriptor{}, nil, ErrorSignatureRetrievalFailed{Msg: fmt.Sprintf("no signature is associated with %q, make sure the artifact was signed successfully", artifactRef)}
+	}
+
+	// Verification Failed
+	if !verificationSucceeded {
+		logger.Debugf("Signature verification failed for all the signatures associated with artifact %v", artifactDescriptor.Digest)
+		return ocispec.Descriptor{}, verificationOutcomes, errors.Join(verificationFailedErrorArray...)
+	}
+
+	// Verification Succeeded
+	return artifactDescriptor, verificationOutcomes, nil
+}
+'''
+
+# the held-out refactoring: state object, methods processPage and verifySignature (bool, error)
+_WM_NEW = r'''	// state of the signature evaluation of this call
+	attempts := &signatureAttempts{
+		verifier:           verifier,
+		repo:               repo,
+		artifactRef:        artifactRef,
+		artifactDescriptor: artifactDescriptor,
+		opts:               opts,
+		maxAttempts:        verifyOpts.MaxSignatureAttempts,
+		errLimitExceeded:   ErrorVerificationFailed{Msg: fmt.Sprintf("signature evaluation stopped. The configured limit of %d signatures to verify per artifact exceeded", verifyOpts.MaxSignatureAttempts)},
+		failures:           []error{ErrorVerificationFailed{}},
+	}
+
+	// get signature manifests
+	logger.Debug("Fetching signature manifests")
+	err = repo.ListSignatures(ctx, artifactDescriptor, func(signatureManifests []ocispec.Descriptor) error {
+		return attempts.processPage(ctx, signatureManifests)
+	})
+	if err != nil && !errors.Is(err, errDoneVerification) {
+		if errors.Is(err, attempts.errLimitExceeded) {
+			return ocispec.Descriptor{}, attempts.outcomes, err
+		}
+		return ocispec.Descriptor{}, nil, err
+	}
+
+	// If there's no signature associated with the reference
+	if attempts.processed == 0 {
+		return ocispec.Descriptor{}, nil, ErrorSignatureRetrievalFailed{Msg: fmt.Sprintf("no signature is associated with %q, make sure the artifact was signed successfully", artifactRef)}
+	}
+
+	// Verification Failed
+	if !attempts.succeeded {
+		logger.Debugf("Signature verification failed for all the signatures associated with artifact %v", artifactDescriptor.Digest)
+		return ocispec.Descriptor{}, attempts.outcomes, errors.Join(attempts.failures...)
+	}
+
+	// Verification Succeeded
+	return artifactDescriptor, attempts.outcomes, nil
+}
+
+// signatureAttempts carries the state of evaluating the signatures that a
+// repository lists for one artifact. It lives for a single call of [Verify].
+type signatureAttempts struct {
+	verifier           Verifier
+	repo               registry.Repository
+	artifactRef        string
+	artifactDescriptor ocispec.Descriptor
+
+	// opts to be passed in verifier.Verify()
+	opts VerifierVerifyOptions
+
+	// maxAttempts is the maximum number of signatures to be processed
+	maxAttempts int
+
+	// errLimitExceeded is returned to the lister once maxAttempts signatures
+	// have been processed without success
+	errLimitExceeded error
+
+	// processed is the number of signatures processed so far
+	processed int
+
+	// succeeded tells whether a signature has been verified successfully
+	succeeded bool
+
+	// outcomes only contains the succeeded outcome
+	outcomes []*VerificationOutcome
+
+	// failures collects the errors of the signatures that failed verification
+	failures []error
+}
+
+// processPage processes one page of signature manifests listed by the
+// repository. It returns errDoneVerification on the first successfully verified
+// signature.
+func (a *signatureAttempts) processPage(ctx context.Context, signatureManifests []ocispec.Descriptor) error {
+	for _, sigManifestDesc := range signatureManifests {
+		if a.processed >= a.maxAttempts {
+			break
+		}
+		a.processed++
+		verified, err := a.verifySignature(ctx, sigManifestDesc)
+		if err != nil {
+			return err
+		}
+		if verified {
+			// early break on success
+			return errDoneVerification
+		}
+	}
+	if a.processed >= a.maxAttempts {
+		return a.errLimitExceeded
+	}
+	return nil
+}
+
+// verifySignature fetches and verifies the signature of sigManifestDesc.
+// It returns true if the signature is verified successfully, false if it
+// failed verification, and an error if the evaluation cannot go on.
+func (a *signatureAttempts) verifySignature(ctx context.Context, sigManifestDesc ocispec.Descriptor) (bool, error) {
+	logger := log.GetLogger(ctx)
+	logger.Infof("Processing signature with manifest mediaType: %v and digest: %v", sigManifestDesc.MediaType, sigManifestDesc.Digest)
+
+	// get signature envelope
+	sigBlob, sigDesc, err := a.repo.FetchSignatureBlob(ctx, sigManifestDesc)
+	if err != nil {
+		return false, ErrorSignatureRetrievalFailed{Msg: fmt.Sprintf("unable to retrieve digital signature with digest %q associated with %q from the Repository, error : %v", sigManifestDesc.Digest, a.artifactRef, err.Error())}
+	}
+
+	// using signature media type fetched from registry
+	a.opts.SignatureMediaType = sigDesc.MediaType
+
+	// verify the signature
+	outcome, err := a.verifier.Verify(ctx, a.artifactDescriptor, sigBlob, a.opts)
+	if err != nil {
+		logger.Warnf("Signature %v failed verification with error: %v", sigManifestDesc.Digest, err)
+		if outcome == nil {
+			logger.Error("Got nil outcome. Expecting non-nil outcome on verification failure")
+			return false, err
+		}
+		outcome.Error = fmt.Errorf("failed to verify signature with digest %v, %w", sigManifestDesc.Digest, outcome.Error)
+		a.failures = append(a.failures, outcome.Error)
+		return false, nil
+	}
+
+	// at this point, the signature is verified successfully
+	a.succeeded = true
+
+	// on success, outcomes only contains the succeeded outcome
+	a.outcomes = []*VerificationOutcome{outcome}
+	logger.Debugf("Signature verification succeeded for artifact %v with signature digest %v", a.artifactDescriptor.Digest, sigManifestDesc.Digest)
+	return true, nil
+}
+'''
+
+_WM = [(N, _OLD_TAIL, _WM_NEW)]
+
+def _wm(name, expect, *more, **kw):
+    d = dict(name=name, file=N, expect=expect, edits=_WM + [(N, f, r) for (f, r) in more])
+    d.update(kw)
+    return d
+
+_WM_CALL = '''		a.processed++
+		verified, err := a.verifySignature(ctx, sigManifestDesc)
+		if err != nil {
+			return err
+		}
+		if verified {
+			// early break on success
+			return errDoneVerification
+		}
+'''
+_WM_FETCHERR = '''	sigBlob, sigDesc, err := a.repo.FetchSignatureBlob(ctx, sigManifestDesc)
+	if err != nil {
+		return false, ErrorSignatureRetrievalFailed{'''
+
+# sentinel form of the same worker: one error result, errDoneVerification on success
+_WS = [
+    ('func (a *signatureAttempts) verifySignature(ctx context.Context, sigManifestDesc ocispec.Descriptor) (bool, error) {',
+     'func (a *signatureAttempts) verifySignature(ctx context.Context, sigManifestDesc ocispec.Descriptor) error {'),
+    ('\t\treturn false, ErrorSignatureRetrievalFailed{', '\t\treturn ErrorSignatureRetrievalFailed{'),
+    ('\t\t\treturn false, err\n', '\t\t\treturn err\n'),
+    ('\t\treturn false, nil\n', '\t\treturn nil\n'),
+    ('\treturn true, nil\n}\n', '\treturn errDoneVerification\n}\n'),
+    (_WM_CALL, '''		a.processed++
+		if err := a.verifySignature(ctx, sigManifestDesc); err != nil {
+			return err
+		}
+'''),
+]
+
+# closure forms on the base tree (captured locals)
+_CL_BODY_OLD = '''			logger.Infof("Processing signature with manifest mediaType: %v and digest: %v", sigManifestDesc.MediaType, sigManifestDesc.Digest)
+			// get signature envelope
+			sigBlob, sigDesc, err := repo.FetchSignatureBlob(ctx, sigManifestDesc)
+			if err != nil {
+				return ErrorSignatureRetrievalFailed{Msg: fmt.Sprintf("unable to retrieve digital signature with digest %q associated with %q from the Repository, error : %v", sigManifestDesc.Digest, artifactRef, err.Error())}
+			}
+
+			// using signature media type fetched from registry
+			opts.SignatureMediaType = sigDesc.MediaType
+
+			// verify each signature
+			outcome, err := verifier.Verify(ctx, artifactDescriptor, sigBlob, opts)
+			if err != nil {
+				logger.Warnf("Signature %v failed verification with error: %v", sigManifestDesc.Digest, err)
+				if outcome == nil {
+					logger.Error("Got nil outcome. Expecting non-nil outcome on verification failure")
+					return err
+				}
+				outcome.Error = fmt.Errorf("failed to verify signature with digest %v, %w", sigManifestDesc.Digest, outcome.Error)
+				verificationFailedErrorArray = append(verificationFailedErrorArray, outcome.Error)
+				continue
+			}
+			// at this point, the signature is verified successfully
+			verificationSucceeded = true
+
+			// on success, verificationOutcomes only contains the
+			// succeeded outcome
+			verificationOutcomes = []*VerificationOutcome{outcome}
+			logger.Debugf("Signature verification succeeded for artifact %v with signature digest %v", artifactDescriptor.Digest, sigManifestDesc.Digest)
+
+			// early break on success
+			return errDoneVerification
+		}
+'''
+_CL_CALL = '''			good, err := verifyOne(sigManifestDesc)
+			if err != nil {
+				return err
+			}
+			if good {
+				return errDoneVerification
+			}
+		}
+'''
+def _closure(ind):
+    t = '''verifyOne := func(sigManifestDesc ocispec.Descriptor) (bool, error) {
+	logger.Infof("Processing signature with manifest mediaType: %v and digest: %v", sigManifestDesc.MediaType, sigManifestDesc.Digest)
+	sigBlob, sigDesc, err := repo.FetchSignatureBlob(ctx, sigManifestDesc)
+	if err != nil {
+		return false, ErrorSignatureRetrievalFailed{Msg: fmt.Sprintf("unable to retrieve digital signature with digest %q associated with %q from the Repository, error : %v", sigManifestDesc.Digest, artifactRef, err.Error())}
+	}
+	opts.SignatureMediaType = sigDesc.MediaType
+	outcome, err := verifier.Verify(ctx, artifactDescriptor, sigBlob, opts)
+	if err != nil {
+		logger.Warnf("Signature %v failed verification with error: %v", sigManifestDesc.Digest, err)
+		if outcome == nil {
+			logger.Error("Got nil outcome. Expecting non-nil outcome on verification failure")
+			return false, err
+		}
+		outcome.Error = fmt.Errorf("failed to verify signature with digest %v, %w", sigManifestDesc.Digest, outcome.Error)
+		verificationFailedErrorArray = append(verificationFailedErrorArray, outcome.Error)
+		return false, nil
+	}
+	verificationSucceeded = true
+	verificationOutcomes = []*VerificationOutcome{outcome}
+	logger.Debugf("Signature verification succeeded for artifact %v with signature digest %v", artifactDescriptor.Digest, sigManifestDesc.Digest)
+	return true, nil
+}
+'''
+    return ''.join(ind + l + '\n' for l in t.rstrip('\n').split('\n'))
+
+_LIST = '\t// get signature manifests\n\tlogger.Debug("Fetching signature manifests")\n'
+# closure made in the outer function, kept in a local, called in the loop
+_CS = [(N, _CL_BODY_OLD, _CL_CALL), (N, _LIST, _closure('\t') + _LIST)]
+# closure made inside the callback
+_CN = [(N, _CL_BODY_OLD, _CL_CALL), (N, '\t\t// process signatures\n', _closure('\t\t') + '\t\t// process signatures\n')]
+
+def _cs(name, expect, *more, **kw):
+    d = dict(name=name, file=N, expect=expect, edits=_CS + [(N, f, r) for (f, r) in more])
+    d.update(kw)
+    return d
+
+def _cn(name, expect, *more, **kw):
+    d = dict(name=name, file=N, expect=expect, edits=_CN + [(N, f, r) for (f, r) in more])
+    d.update(kw)
+    return d
+
+# stateless worker: fetches and verifies, hands Verify's results back as they are; the callback keeps the books
+_FV_CALL = '''			outcome, err := fetchAndVerify(ctx, repo, verifier, artifactDescriptor, opts, artifactRef, sigManifestDesc)
+			if err != nil {
+				if outcome == nil {
+					return err
+				}
+				outcome.Error = fmt.Errorf("failed to verify signature with digest %v, %w", sigManifestDesc.Digest, outcome.Error)
+				verificationFailedErrorArray = append(verificationFailedErrorArray, outcome.Error)
+				continue
+			}
+			// at this point, the signature is verified successfully
+			verificationSucceeded = true
+			verificationOutcomes = []*VerificationOutcome{outcome}
+			return errDoneVerification
+		}
+'''
+_FV_FUNC = '''// fetchAndVerify fetches one listed signature and verifies it
+func fetchAndVerify(ctx context.Context, repo registry.Repository, verifier Verifier, target ocispec.Descriptor, opts VerifierVerifyOptions, artifactRef string, sigManifestDesc ocispec.Descriptor) (*VerificationOutcome, error) {
+	logger := log.GetLogger(ctx)
+	logger.Infof("Processing signature with manifest mediaType: %v and digest: %v", sigManifestDesc.MediaType, sigManifestDesc.Digest)
+	sigBlob, sigDesc, err := repo.FetchSignatureBlob(ctx, sigManifestDesc)
+	if err != nil {
+		return nil, ErrorSignatureRetrievalFailed{Msg: fmt.Sprintf("unable to retrieve digital signature with digest %q associated with %q from the Repository, error : %v", sigManifestDesc.Digest, artifactRef, err.Error())}
+	}
+	opts.SignatureMediaType = sigDesc.MediaType
+	return verifier.Verify(ctx, target, sigBlob, opts)
+}
+
+'''
+_FV = [(N, _CL_BODY_OLD, _FV_CALL), (N, 'func generateAnnotations(', _FV_FUNC + 'func generateAnnotations(')]
+
+def _fv(name, expect, *more, **kw):
+    d = dict(name=name, file=N, expect=expect, edits=_FV + [(N, f, r) for (f, r) in more])
+    d.update(kw)
+    return d
+
+VARIANTS += [
+ # --- state object + methods (the held-out refactoring) and neighbours
+ _wm('shape-worker-method', 'silent',
+     why='per-signature block extracted into a method of the state object returning (verified, err); the page worker maps it to return/continue'),
+ _wm('shape-worker-sentinel', 'silent', *_WS,
+     why='the same worker with one error result: errDoneVerification on success, nil to go on'),
+ _wm('shape-worker-counts', 'silent',
+     ('\t\ta.processed++\n\t\tverified, err := a.verifySignature(ctx, sigManifestDesc)\n', '\t\tverified, err := a.verifySignature(ctx, sigManifestDesc)\n'),
+     ('\tlogger := log.GetLogger(ctx)\n\tlogger.Infof("Processing signature with manifest mediaType', '\ta.processed++\n\tlogger := log.GetLogger(ctx)\n\tlogger.Infof("Processing signature with manifest mediaType'),
+     why='the worker is cut one statement earlier: it also counts the attempt (first thing, after the page worker tested the limit)'),
+ _wm('shape-worker-plain-func', 'silent',
+     ('func (a *signatureAttempts) verifySignature(ctx context.Context, sigManifestDesc ocispec.Descriptor) (bool, error) {', 'func verifyListed(ctx context.Context, sigManifestDesc ocispec.Descriptor, a *signatureAttempts) (bool, error) {'),
+     ('a.verifySignature(ctx, sigManifestDesc)', 'verifyListed(ctx, sigManifestDesc, a)'),
+     why='the worker as a plain function with the state object as its last parameter'),
+ _wm('worker-success-reported-false', 'flagged(early-exit/stop-after-success)',
+     ('\treturn true, nil\n}\n', '\treturn false, nil\n}\n')),
+ _wm('worker-success-answer-ignored', 'flagged(early-exit/stop-after-success)',
+     ('\t\tif verified {\n\t\t\t// early break on success\n\t\t\treturn errDoneVerification\n\t\t}\n', '\t\t_ = verified\n')),
+ _wm('worker-fetch-error-skipped', 'flagged(fail/fetch-error)',
+     (_WM_FETCHERR, '''	sigBlob, sigDesc, err := a.repo.FetchSignatureBlob(ctx, sigManifestDesc)
+	if err != nil {
+		return false, nil
+	}
+	if err != nil {
+		return false, ErrorSignatureRetrievalFailed{''')),
+ _wm('worker-error-continue', 'flagged(fail/)',
+     ('\t\tverified, err := a.verifySignature(ctx, sigManifestDesc)\n\t\tif err != nil {\n\t\t\treturn err\n\t\t}\n', '\t\tverified, err := a.verifySignature(ctx, sigManifestDesc)\n\t\tif err != nil {\n\t\t\tcontinue\n\t\t}\n')),
+ _wm('worker-nil-outcome-goes-on', 'flagged(fail/nil-outcome)',
+     ('\t\t\treturn false, err\n', '\t\t\treturn false, nil\n')),
+ _wm('worker-limit-gt', 'flagged(bound/guard)',
+     ('\t\tif a.processed >= a.maxAttempts {\n\t\t\tbreak\n\t\t}\n', '\t\tif a.processed > a.maxAttempts {\n\t\t\tbreak\n\t\t}\n')),
+ _wm('worker-count-after-call', 'flagged(bound/counted)',
+     ('\t\ta.processed++\n\t\tverified, err := a.verifySignature(ctx, sigManifestDesc)\n', '\t\tverified, err := a.verifySignature(ctx, sigManifestDesc)\n\t\ta.processed++\n')),
+ _wm('worker-counts-after-fetch', 'flagged(bound/counted)',
+     ('\t\ta.processed++\n\t\tverified, err := a.verifySignature(ctx, sigManifestDesc)\n', '\t\tverified, err := a.verifySignature(ctx, sigManifestDesc)\n'),
+     ('\t// using signature media type fetched from registry\n\ta.opts.SignatureMediaType', '\ta.processed++\n\t// using signature media type fetched from registry\n\ta.opts.SignatureMediaType')),
+ _wm('worker-flag-set-early', 'flagged(early-exit/flag-only-on-success)',
+     ('\t// get signature envelope\n\tsigBlob, sigDesc, err := a.repo.FetchSignatureBlob(ctx, sigManifestDesc)\n', '\ta.succeeded = true\n\t// get signature envelope\n\tsigBlob, sigDesc, err := a.repo.FetchSignatureBlob(ctx, sigManifestDesc)\n')),
+ _wm('worker-failed-outcomes-kept', 'flagged(early-exit/outcome-of-that-signature)',
+     ('\t\ta.failures = append(a.failures, outcome.Error)\n', '\t\ta.failures = append(a.failures, outcome.Error)\n\t\ta.outcomes = []*VerificationOutcome{outcome}\n')),
+ _wm('worker-called-outside-loop', 'flagged(precedence/callback-only-listed)',
+     ('\t// get signature manifests\n\tlogger.Debug("Fetching signature manifests")\n', '\t// get signature manifests\n\tlogger.Debug("Fetching signature manifests")\n\tif ok, _ := attempts.verifySignature(ctx, artifactDescriptor); ok {\n\t\treturn artifactDescriptor, attempts.outcomes, nil\n\t}\n')),
+ _wm('worker-leaks-state', 'flagged(callback/state-object)',
+     ('// signatureAttempts carries the state', 'var lastAttempts *signatureAttempts\n\n// signatureAttempts carries the state'),
+     ('\t// get signature envelope\n\tsigBlob, sigDesc, err := a.repo.FetchSignatureBlob(ctx, sigManifestDesc)\n', '\tlastAttempts = a\n\t// get signature envelope\n\tsigBlob, sigDesc, err := a.repo.FetchSignatureBlob(ctx, sigManifestDesc)\n')),
+ _wm('worker-other-descriptor', 'flagged(callback/verify-resolved-descriptor)',
+     ('a.verifier.Verify(ctx, a.artifactDescriptor, sigBlob, a.opts)', 'a.verifier.Verify(ctx, sigManifestDesc, sigBlob, a.opts)')),
+ _wm('worker-sentinel-success-nil', 'flagged(early-exit/stop-after-success)', *(_WS + [('\treturn errDoneVerification\n}\n', '\treturn nil\n}\n')])),
+ _wm('worker-sentinel-error-dropped', 'flagged(fail/)', *(_WS + [('\t\tif err := a.verifySignature(ctx, sigManifestDesc); err != nil {\n\t\t\treturn err\n\t\t}\n', '\t\tif err := a.verifySignature(ctx, sigManifestDesc); errors.Is(err, errDoneVerification) {\n\t\t\treturn err\n\t\t}\n')])),
+ # --- closures over the captured locals
+ _cs('shape-worker-closure', 'silent',
+     why='per-signature block as a closure of the outer function kept in a local; the callback calls it in its loop'),
+ _cn('shape-worker-closure-nested', 'silent',
+     why='per-signature block as a closure made inside the callback'),
+ _cs('worker-closure-answer-ignored', 'flagged(early-exit/stop-after-success)',
+     ('\t\t\tif good {\n\t\t\t\treturn errDoneVerification\n\t\t\t}\n', '\t\t\t_ = good\n')),
+ _cs('worker-closure-called-outside', 'flagged(precedence/callback-only-listed)',
+     (_LIST, _LIST + '\tif good, _ := verifyOne(artifactDescriptor); good {\n\t\treturn artifactDescriptor, verificationOutcomes, nil\n\t}\n')),
+ _cs('worker-closure-reassigned', 'flagged(callback/anchors)',
+     (_LIST, _LIST + '\tif verifyOpts.MaxSignatureAttempts > 100 {\n\t\tverifyOne = func(ocispec.Descriptor) (bool, error) { return true, nil }\n\t}\n')),
+ _cn('worker-closure-nested-fetch-error-skipped', 'flagged(fail/fetch-error)',
+     ('\t\t\tif err != nil {\n\t\t\t\treturn false, ErrorSignatureRetrievalFailed{', '\t\t\tif err != nil && sigManifestDesc.MediaType == "" {\n\t\t\t\treturn false, nil\n\t\t\t}\n\t\t\tif err != nil {\n\t\t\t\treturn false, ErrorSignatureRetrievalFailed{')),
+ _cn('worker-closure-nested-limit-gt', 'flagged(bound/guard)',
+     ('\t\t\tif numOfSignatureProcessed >= verifyOpts.MaxSignatureAttempts {\n\t\t\t\tbreak\n\t\t\t}', '\t\t\tif numOfSignatureProcessed > verifyOpts.MaxSignatureAttempts {\n\t\t\t\tbreak\n\t\t\t}')),
+ # --- stateless worker handing Verify's results back
+ _fv('shape-worker-fetch-verify', 'silent',
+     why='the worker only fetches and verifies and returns Verify\'s (outcome, err); the callback branches on them and keeps the books'),
+ _fv('worker-fv-fetch-error-nil', 'flagged(early-exit/flag-only-on-success)',
+     ('\t\treturn nil, ErrorSignatureRetrievalFailed{Msg: fmt.Sprintf("unable to retrieve digital signature', '\t\treturn nil, nil\n\t}\n\tif err != nil {\n\t\treturn nil, ErrorSignatureRetrievalFailed{Msg: fmt.Sprintf("unable to retrieve digital signature')),
+ _fv('worker-fv-flag-before-test', 'flagged(early-exit/flag-only-on-success)',
+     ('\t\t\toutcome, err := fetchAndVerify(ctx, repo, verifier, artifactDescriptor, opts, artifactRef, sigManifestDesc)\n', '\t\t\toutcome, err := fetchAndVerify(ctx, repo, verifier, artifactDescriptor, opts, artifactRef, sigManifestDesc)\n\t\t\tverificationSucceeded = true\n')),
+ _fv('worker-fv-failed-outcome-kept', 'flagged(early-exit/outcome-of-that-signature)',
+     ('\t\t\t\tverificationFailedErrorArray = append(verificationFailedErrorArray, outcome.Error)\n\t\t\t\tcontinue\n', '\t\t\t\tverificationFailedErrorArray = append(verificationFailedErrorArray, outcome.Error)\n\t\t\t\tverificationOutcomes = []*VerificationOutcome{outcome}\n\t\t\t\tcontinue\n')),
+ _fv('worker-fv-error-swallowed', 'flagged(early-exit/)',
+     ('\treturn verifier.Verify(ctx, target, sigBlob, opts)\n', '\toutcome, _ := verifier.Verify(ctx, target, sigBlob, opts)\n\treturn outcome, nil\n')),
+ _fv('worker-fv-other-target', 'flagged(callback/verify-resolved-descriptor)',
+     ('fetchAndVerify(ctx, repo, verifier, artifactDescriptor, opts, artifactRef, sigManifestDesc)', 'fetchAndVerify(ctx, repo, verifier, sigManifestDesc, opts, artifactRef, sigManifestDesc)')),
+ _fv('worker-fv-continue-after-success', 'flagged(early-exit/stop-after-success)',
+     ('\t\t\tverificationOutcomes = []*VerificationOutcome{outcome}\n\t\t\treturn errDoneVerification\n', '\t\t\tverificationOutcomes = []*VerificationOutcome{outcome}\n\t\t\tcontinue\n')),
+]
